@@ -36,6 +36,26 @@ def write_mode(mode):
     return any(c in m for c in "wax+")
 
 
+def opens_for_writing(ev, target):
+    """the event opens the file named by `target` for writing (truncating / creating it):
+    open(target, 'w..'), os.open(target, O_WRONLY|...), or open(<descriptor of os.open(target, ...)>, 'w..')"""
+    if ev[0] != "call" or not ev[3]:
+        return False
+    if ev[2] == "builtin:open":
+        a0 = ev[3][0]
+        if a0 == target or (is_call(a0, ("ext:os.fspath", "builtin:str")) and a0[2] == (target,)):
+            return write_mode(open_mode(ev))
+        if is_call(a0, "ext:os.open") and a0[2] and a0[2][0] == target:
+            return True
+        return False
+    if ev[2] == "ext:os.open" and ev[3][0] == target and len(ev[3]) > 1:
+        from sa.terms import show
+
+        flags = show(ev[3][1])
+        return any(f in flags for f in ("O_WRONLY", "O_RDWR", "O_TRUNC", "O_CREAT", "O_APPEND"))
+    return False
+
+
 def open_mode(ev):
     h_args, h_kw = ev[3], dict(ev[4])
     return h_args[1] if len(h_args) > 1 else h_kw.get("mode")
@@ -84,7 +104,7 @@ def run(ctx):
             evs = [ev for ev, _d in flatten_events(p.events)]
             first = None
             for i, ev in enumerate(evs):
-                if ev[0] == "call" and ev[2] == "builtin:open" and ev[3] and ev[3][0] == target and write_mode(open_mode(ev)):
+                if opens_for_writing(ev, target):
                     first = i
                     break
                 if ev[0] == "fs-mutation" and any(a == target for a in ev[3]):
@@ -95,7 +115,7 @@ def run(ctx):
                 if ev[0] == "loop":
                     for bp in ev[4]:
                         for ev2 in all_events(bp[2]):
-                            if ev2[0] == "call" and ev2[2] == "builtin:open" and ev2[3] and ev2[3][0] == target and write_mode(open_mode(ev2)):
+                            if opens_for_writing(ev2, target):
                                 loops_bad.append(ev2[1])
                             if ev2[0] == "call" and ev2[2] == "repo:common.write_metadata_to_file" and len(ev2[3]) > 1 and ev2[3][1] == target:
                                 loops_bad.append(ev2[1])
@@ -119,6 +139,16 @@ def run(ctx):
                     continue
             n_writing += 1
             handle = evs[first][5][1] if evs[first][0] == "call" and evs[first][5][0] == "ok" else None
+            wrapped = None
+            fd = handle if handle is not None and evs[first][2] == "ext:os.open" else None
+            if handle is not None and evs[first][2] == "ext:os.open":
+                # fd = os.open(target, ...); open(fd, 'wb'): the file object wrapped around the
+                # descriptor is the handle of the write phase
+                for j in range(first + 1, len(evs)):
+                    ev = evs[j]
+                    if ev[0] == "call" and ev[2] == "builtin:open" and ev[3] and ev[3][0] == handle and ev[5][0] == "ok":
+                        wrapped, handle = ev, ev[5][1]
+                        break
             # end of the write phase: the with-exit following the handle's with-enter, or close()
             end = len(evs)
             entered = False
@@ -136,8 +166,10 @@ def run(ctx):
             inlined_sites = {ev[1] for ev in evs if ev[0] in ("inlined", "enter")}
             for ev in evs[first + 1 : end]:
                 k = ev[0]
-                if k in HARMLESS_AFTER:
+                if k in HARMLESS_AFTER or ev is wrapped:
                     continue
+                if fd is not None and k == "call" and ev[2] == "builtin:open" and ev[3] and ev[3][0] == fd:
+                    continue  # (a failure to wrap the descriptor is a failure of the write phase itself)
                 if k == "call" and ev[2] in ("method:write", "method:close", "method:flush", "method:writelines") and handle is not None and ev[3] and ev[3][0] == handle:
                     continue
                 if k == "call" and ev[2].startswith("repo:") and (ev[2][5:].split("[")[0].split("<")[0] in inline or ev[1] in inlined_sites):
@@ -147,7 +179,7 @@ def run(ctx):
                 offenders.append(ev)
             # a second write phase after the first: a failure in between leaves the intermediate content
             for ev in evs[end:]:
-                if (ev[0] == "call" and ev[2] == "builtin:open" and ev[3] and ev[3][0] == target and write_mode(open_mode(ev))) or (ev[0] == "fs-mutation" and any(a == target for a in ev[3])):
+                if (opens_for_writing(ev, target) and ev is not wrapped) or (ev[0] == "fs-mutation" and any(a == target for a in ev[3])):
                     offenders.append(ev)
             key = "ok" if not offenders else "|".join(sorted({"%s %s" % (ev[0], ev[2] if ev[0] == "call" else "") for ev in offenders}))[:160]
             cur = classes.setdefault(key, [0, offenders[:3], evs[first][1]])
@@ -169,7 +201,7 @@ def run(ctx):
         swallowed = {}
         for p in sm.paths:
             evs_all = list(all_events(p.events))
-            writes = any((ev[0] == "call" and ev[2] == "builtin:open" and ev[3] and ev[3][0] == target and write_mode(open_mode(ev))) or (ev[0] == "fs-mutation" and any(a == target for a in ev[3])) for ev in evs_all)
+            writes = any((opens_for_writing(ev, target)) or (ev[0] == "fs-mutation" and any(a == target for a in ev[3])) for ev in evs_all)
             if not writes:
                 continue
             for ev in evs_all:
@@ -216,7 +248,7 @@ def run(ctx):
                 bad += 1
             idx = pev.index(ev)
             for e2 in pev[:idx]:
-                if e2[0] == "call" and e2[2] == "builtin:open" and e2[3] and e2[3][0] == ev[3][0] and write_mode(open_mode(e2)):
+                if opens_for_writing(e2, ev[3][0]):
                     early += 1
     ctx.ob("R4", "cli-key-gate", site.loc(), "cli_sign_artifacts calls the signer %s" % ("only with a key that passed the 64-hex gate, and does not open the repodata file itself" if bad == 0 and early == 0 and n else "without the hex-key gate dominating the call, or after opening the target itself"), bad == 0 and early == 0 and n > 0)
 
